@@ -360,7 +360,7 @@ impl Directive {
                 }
             }
             Directive::Else => {
-                next_item = NextItem::EndIf;
+                next_item = NextItem::EndIfAll;
             }
             Directive::Endif => {}
             Directive::Exit => {
